@@ -155,7 +155,7 @@ def execute(case, ctx):
         in_f = False
 
         if sc.in_fstring(a[3]) or sc.in_fstring(b[2]) or a[0] in (tokenize.FSTRING_START, tokenize.FSTRING_MIDDLE) or b[0] in (tokenize.FSTRING_MIDDLE, tokenize.FSTRING_END):
-            if a[0] in FSTRING_TOKS or b[0] in FSTRING_TOKS or a[3][0] != b[2][0] or (a[1] == '{' and b[1] == '{') or (a[1] == '}' and b[1] == '}'):
+            if a[0] in FSTRING_TOKS or b[0] in FSTRING_TOKS or a[3][0] != b[2][0] or (a[1] == '{' and b[1] == '{') or (a[1] == '}' and b[1] in ('}', '{')):  # '}{': between two fields, i.e. literal text
                 ctx.count('gap_in_fstring_skipped')  # next to literal text of the f-string (not a gap between tokens of a node), or would make / break a brace escape
 
                 continue
